@@ -39,6 +39,11 @@ TRUSTED_BASE_COMMON = [
 def sh(cmd, timeout=1800, cwd=ROOT, env=None, capture=True):
     e = dict(os.environ)
     e.setdefault("CARGO_NET_OFFLINE", "true")
+    # an ambient RUSTFLAGS would override harness/.cargo/config.toml and silently drop --cfg scylla_verif
+    for var in ("RUSTFLAGS", "CARGO_ENCODED_RUSTFLAGS", "CARGO_BUILD_RUSTFLAGS", "CARGO_BUILD_TARGET_DIR"):
+        e.pop(var, None)
+    if not (env and "CARGO_TARGET_DIR" in env):
+        e.pop("CARGO_TARGET_DIR", None)
     if env:
         e.update(env)
     try:
@@ -240,6 +245,9 @@ def run_driver(pid, case_file, extra_args=""):
         except subprocess.TimeoutExpired:
             return ["error driver-timeout"] * len(ch)
         outl = p.stdout.splitlines()
+        if len(outl) > len(ch):
+            # a stray output line would shift every later verdict: trust none of this chunk
+            return [f"error driver-output-misaligned ({len(outl)} lines for {len(ch)} cases)"] * len(ch)
         if len(outl) != len(ch):
             outl += [f"error driver-died rc={p.returncode} {p.stderr[-200:]!r}"] * (len(ch) - len(outl))
         return outl
@@ -390,12 +398,14 @@ def run_check(spec, argv):
                 diffs.append((ln, v))
         else:
             errors.append((ln, v))
-    if "post" in spec and lines:
+    tie_diffs = len(diffs) + len(errors)
+    if "post" in spec and lines and not replay:
         for kind, ln, v in spec["post"](lines, verdicts):
             (viols if kind == "viol" else diffs).append((ln, v))
 
     searched = 0
-    if (diffs or errors or problems) and not viols and okh and okd and not replay:
+    proof_broken = any(k in ("proof", "coqchk") for k, _ in problems)
+    if (tie_diffs or proof_broken) and not viols and okh and okd and not replay:
         # search: the model/implementation tie or a proof is broken; look for a concrete input on
         # which the property itself fails (the driver evaluates the property predicate on the
         # implementation's output whenever the acceptor rejects).
@@ -467,13 +477,14 @@ def run_check(spec, argv):
     seenk = set()
     for ln, v in zip(lines, verdicts):
         k = case_kind(ln)
-        if k not in seenk and len(ln) < 400:
+        if k not in seenk:
             seenk.add(k)
-            samples.append({"case_and_impl_output": ln, "verdict": v})
+            samples.append({"case_and_impl_output": ln if len(ln) <= 600 else ln[:600] + f" …[{len(ln)} chars]",
+                            "verdict": (v or "")[:300]})
     if not samples:
         samples = [{"note": "no tie cases were run"}]
     cov = {
-        "obligations": pr["obligations"], "discharged": pr["discharged"] if pr["ok"] or pr["discharged"] else 0,
+        "obligations": pr["obligations"], "discharged": pr["discharged"] if pr["ok"] else 0,
         "checker_cmd": spec.get("checker_cmd", f"make -C coq {' '.join(spec['coq_targets'])} && coqc -Q coq SV pins/{pid}.v (Check <thm> : <statement> + Print Assumptions per theorem)"),
         "trusted_base": TRUSTED_BASE_COMMON + spec.get("trusted_base", []),
         "theorems": pr["theorems"],
@@ -482,7 +493,7 @@ def run_check(spec, argv):
         "evaluations": len(lines), "distinct_nontrivial": distinct,
         "rule": spec.get("rule", "cases generated from VERIF_SEED by the harness; distinct = distinct case lines"),
         "case_kinds": kinds,
-        "traces_validated_against_impl": len(lines),
+        "traces_validated_against_impl": sum(1 for v in verdicts if v and v.startswith("ok")),
         "disagreements_checked": len(diffs) + len(errors) + len(viols) + len(known_lines),
         "known_finding_hits": len(known_lines),
         "searched_cases_after_break": searched,
